@@ -533,7 +533,8 @@ fn read_modes(len: usize, all: bool) -> Vec<ReadMode> {
 }
 
 pub fn scenarios(tier: Tier) -> Vec<Sc> {
-    let thorough = tier == Tier::Thorough;
+    let thorough = tier >= Tier::Thorough;
+    let deep = tier >= Tier::Deep;
     let mut out = vec![];
     let base = Sc {
         topo: Topo::WtWt,
@@ -560,9 +561,14 @@ pub fn scenarios(tier: Tier) -> Vec<Sc> {
     if thorough {
         lens.extend(6..=70);
         lens.extend([16384, 65536, 100_000, 1 << 20, 4 << 20]);
-        lens.sort();
-        lens.dedup();
     }
+    if deep {
+        // every length up to 300 and each side of every window / varint / packet boundary in reach
+        lens.extend(71..=300);
+        lens.extend([1022, 1026, 1199, 1200, 1201, 2047, 2048, 2049, 4095, 4097, 8191, 8192, 16383, 16385, 65535, 65537, (1 << 20) - 1, (1 << 20) + 1, 8 << 20]);
+    }
+    lens.sort();
+    lens.dedup();
     // A. wt <-> wt: length x direction x write partition x read mode
     for &len in &lens {
         for &(co, bi, rev) in &dirs {
@@ -583,7 +589,8 @@ pub fn scenarios(tier: Tier) -> Vec<Sc> {
         }
     }
     // B. several concurrent streams
-    let ns: Vec<usize> = if thorough { vec![2, 3, 8] } else { vec![2, 3] };
+    // (the transport's default limit is 100 concurrent streams per direction and kind; 3 uni slots are taken by HTTP/3)
+    let ns: Vec<usize> = if deep { vec![2, 3, 8, 20, 50, 90] } else if thorough { vec![2, 3, 8] } else { vec![2, 3] };
     for &n in &ns {
         for &(co, bi, rev) in &dirs {
             for order in 0..3u8 {
@@ -608,6 +615,15 @@ pub fn scenarios(tier: Tier) -> Vec<Sc> {
                         for c1 in 1..plen {
                             for c2 in c1 + 1..plen {
                                 cutsets.push(vec![c1, c2]);
+                            }
+                        }
+                    }
+                    if deep && plen <= 10 {
+                        for c1 in 1..plen {
+                            for c2 in c1 + 1..plen {
+                                for c3 in c2 + 1..plen {
+                                    cutsets.push(vec![c1, c2, c3]);
+                                }
                             }
                         }
                     }
@@ -669,12 +685,24 @@ pub fn scenarios(tier: Tier) -> Vec<Sc> {
         }
     }
     // E. select! start deviations on the accept path (<= 1 non-zero start among the first polls after the mark)
-    let sel_polls = if thorough { 12 } else { 6 };
+    let sel_polls = if deep { 24 } else if thorough { 12 } else { 6 };
     for topo in [Topo::RawToServer, Topo::RawToClient] {
         for bidi in [false, true] {
             for k in 0..sel_polls {
                 for start in 1..9u32 {
                     out.push(Sc { topo: topo.clone(), client_opens: topo == Topo::RawToServer, bidi, len: 9, wparts: vec![4, 5], cuts: vec![1], settle_between: true, sel: vec![(k, start)], ..base.clone() });
+                }
+            }
+            // two deviations
+            if deep {
+                for k1 in 0..12u32 {
+                    for k2 in k1 + 1..12 {
+                        for s1 in [1u32, 2, 3, 5, 8] {
+                            for s2 in [1u32, 2, 4, 7] {
+                                out.push(Sc { topo: topo.clone(), client_opens: topo == Topo::RawToServer, bidi, len: 9, wparts: vec![4, 5], cuts: vec![1], settle_between: true, sel: vec![(k1, s1), (k2, s2)], ..base.clone() });
+                            }
+                        }
+                    }
                 }
             }
         }
